@@ -19,7 +19,7 @@ USAGE (read this, then the docstrings of `patched`, `run_program`, `RunResult`)
             res = det.run_program(threads, sched)    # RunResult
             assert not res.deadlock and not res.exceptions, res.describe()
             ... oracle on ctx ...
-        # or:  for sched, res, ctx in det.explore(factory, K=2): ...      (exhaustive, DFS over preemptions)
+        # or:  for sched, res, ctx in det.explore(factory, K=2): ...      (exhaustive, fewest preemptions first)
         # or:  sched = det.resolve_schedule(raw, base)   with raw drawn from det.raw_schedules(K=3)
         # determinism:  det.run_checked(factory, sched)  runs twice and raises HarnessError on divergence
 
@@ -33,8 +33,9 @@ the library starts through the patched `Thread`/`Timer`/executor get the next ti
 
 Yield points: (1) `sys.settrace` 'line' events in frames whose file is under the reactivex package
 that is actually imported (`os.path.dirname(reactivex.__file__)`, so VERIF_REPO copies work) or
-under `extra_trace_dirs/files`; (2) optionally 'opcode' events for functions named in `opcodes`
-(co_qualname, e.g. "RefCountDisposable.release") -- needed to split `x -= 1`; (3) every operation
+under a path prefix listed in `extra_trace=`; (2) optionally 'opcode' events for functions named in
+`opcodes=` (co_qualname, e.g. "RefCountDisposable.release"; True = all traced frames) -- needed to
+split read-modify-write lines such as `self.count -= 1`; (3) every operation
 of a cooperative primitive (when `prim_yields="auto"`, the default, the extra yield is skipped if
 the caller is a line-traced frame because the line event just before it is the same window);
 (4) explicit `det.yield_point(label)` calls, usable from probe callbacks (no-op outside a run).
@@ -58,6 +59,31 @@ all OS threads are daemon threads and are unwound with a BaseException (`_Abort`
 before `run_program` returns -- a thread that cannot be finished raises HarnessError.  Tracing is
 only ever installed in the harness's own threads and removed when they end, so Hypothesis in the
 calling thread is unaffected; nothing survives a case, so `os._exit` at shard end is fine.
+
+API summary
+    patched(clock=None, extra_modules=()) / patch_modules() / unpatch_modules()   namespace patching
+    run_program(threads, schedule=(), max_steps=, wall_timeout=, opcodes=, prim_yields=, extra_trace=,
+                time_limit_s=, names=, trace=, reuse_threads=) -> RunResult
+    RunResult: events, steps, owners, labels, choices, deadlock, exceptions, returns, leftover,
+               budget_exceeded, horizon_reached, complete, nthreads, clock_us, schedule,
+               switches(), overlapped(), describe(), fingerprint()
+    run_checked(factory, schedule)           run twice on fresh objects, HarnessError unless identical
+    next_preemptions(res, after) / k1_schedules(base) / explore(factory, K)     exhaustive schedules
+    raw_schedules(K) (Hypothesis strategy) + resolve_schedule(raw, base)           drawn schedules
+    yield_point(label) / log(*payload) / now() / current_tid() / in_run()          for probes
+    audit_object(obj)                        real (uncooperative) locks reachable from obj, should be []
+    C* classes                               the cooperative primitives, usable directly in harness code
+
+Throughput (2 threads x ~10 lines each, measured on a machine with load average ~40): about 2000
+schedules/s with reuse_threads=True, about 50/s with fresh OS threads per run (thread start latency
+dominates under load; on an idle machine fresh threads give roughly 1000/s).  Use reuse_threads=True
+unless the code under test keys state on the thread (CurrentThreadScheduler, threading.local).
+
+CPython 3.12 note: settrace is built on interpreter-wide sys.monitoring events.  Changing that event set
+while a thread sits inside traced code can crash the interpreter, so run_program keeps a do-nothing
+trace function installed in the calling thread for the duration of a run (restored afterwards).  Once a
+process has used `opcodes`, later runs in that process are somewhat slower (CPython keeps per-instruction
+instrumentation enabled), but behave the same.
 
 Limits: C-level atomicity as CPython provides it (list.append, dict ops, attribute stores are
 single steps; a line is atomic unless listed in `opcodes`); GIL build only; code outside the traced
@@ -231,7 +257,6 @@ class RunResult:
 
     def overlapped(self) -> bool:
         """True if some thread ran, then another, then the first again (call intervals overlapped)."""
-        seen_after = {}
         last = None
         runs = []
         for t in self.owners:
@@ -1209,6 +1234,37 @@ def _coop_instance(v):
 
 _patch_state = None
 _real_default_now = None
+_scan_cache = None
+
+
+def _scan(mods):
+    """[(module dict | None, class | None, name, original, factory of the replacement | None)]"""
+    vmap, _ = _value_map()
+    out = []
+    seen_cls_attr = set()
+    for mod in mods:
+        d = vars(mod)
+        for name, val in list(d.items()):
+            rep = vmap.get(id(val))
+            if rep is not None:
+                out.append((d, None, name, val, (lambda r=rep: r)))
+                continue
+            rep = _coop_instance(val)
+            if rep is not None:
+                out.append((d, None, name, val, type(rep)))
+            elif isinstance(val, type) and getattr(val, "__module__", "").startswith("reactivex"):
+                for an, av in list(vars(val).items()):
+                    if (id(val), an) in seen_cls_attr:
+                        continue
+                    seen_cls_attr.add((id(val), an))
+                    rep = _coop_instance(av)
+                    if rep is not None:
+                        out.append((None, val, an, av, type(rep)))
+                    elif an == "_global" and isinstance(av, weakref.WeakKeyDictionary):
+                        out.append((None, val, an, av, weakref.WeakKeyDictionary))
+                    elif an == "_local" and isinstance(av, _real_threading.local):
+                        out.append((None, val, an, av, None))
+    return out
 
 
 def reactivex_dir() -> str:
@@ -1235,41 +1291,31 @@ def patch_modules(clock: FakeClock | None = None, extra_modules=()):
     import reactivex.scheduler  # noqa: F401  make sure the scheduler modules exist before scanning
     import reactivex.internal.basic as _basic
 
-    vmap, real_now = _value_map()
-    undo = []
-    seen_cls_attr = set()
-    report = {"names": [], "instances": []}
     mods = [m for n, m in sorted(sys.modules.items()) if m is not None and (n == "reactivex" or n.startswith("reactivex."))]
     mods += [m for m in extra_modules]
-    for mod in mods:
-        d = vars(mod)
-        for name, val in list(d.items()):
-            rep = vmap.get(id(val))
-            if rep is None:
-                rep = _coop_instance(val)
-            if rep is not None:
-                undo.append((d, None, name, val))
-                d[name] = rep
-                report["names"].append((mod.__name__, name))
-            elif isinstance(val, type) and getattr(val, "__module__", "").startswith("reactivex"):
-                for an, av in list(vars(val).items()):
-                    if (id(val), an) in seen_cls_attr:
-                        continue
-                    seen_cls_attr.add((id(val), an))
-                    rep = _coop_instance(av)
-                    if rep is None and an == "_global" and isinstance(av, weakref.WeakKeyDictionary):
-                        rep = weakref.WeakKeyDictionary()
-                    if rep is None and an == "_local" and isinstance(av, _real_threading.local):
-                        rep = "relocal"
-                    if rep is not None:
-                        undo.append((None, val, an, av))
-                        report["instances"].append((f"{val.__module__}.{val.__qualname__}", an))
-                        if rep != "relocal":
-                            setattr(val, an, rep)
+    sig = tuple(id(m) for m in mods)
+    global _scan_cache
+    if _scan_cache is None or _scan_cache[0] != sig:
+        _scan_cache = (sig, _scan(mods))
+    undo = []
+    report = {"names": [], "instances": []}
+    late = []
+    for d, cls, name, orig, make in _scan_cache[1]:
+        if d is not None:
+            if d.get(name) is not orig:
+                raise HarnessError(f"patch_modules: {name} changed since the scan")
+            d[name] = make()
+            report["names"].append((d.get("__name__"), name))
+        else:
+            report["instances"].append((f"{cls.__module__}.{cls.__qualname__}", name))
+            if make is None:
+                late.append((cls, name, orig))
+            else:
+                setattr(cls, name, make())
+        undo.append((d, cls, name, orig))
     # thread-local singletons are re-created last, when their class sees the patched names
-    for _, cls, an, av in [u for u in undo if u[1] is not None]:
-        if isinstance(av, _real_threading.local) and an == "_local":
-            setattr(cls, an, type(av)())
+    for cls, name, orig in late:
+        setattr(cls, name, type(orig)())
     prev_clock = _clock
     if clock is not None:
         _clock = clock
@@ -1351,6 +1397,15 @@ def run_program(threads, schedule=(), *, max_steps=20000, wall_timeout=20.0, opc
     res = RunResult()
     res.schedule = [list(x) for x in schedule]
     _H = h
+    # CPython 3.12 implements settrace on top of interpreter-wide sys.monitoring events; changing that event set
+    # (first/last tracing thread, first use of f_trace_opcodes) while another thread sits inside traced code can
+    # crash the interpreter.  So the controller itself holds a do-nothing trace function for the whole run and
+    # turns per-instruction events on *before* any controlled thread starts: the event set then only changes
+    # here, while no controlled thread is executing.
+    prev_trace = sys.gettrace()
+    if h.opcodes or h.all_opcodes:
+        sys._getframe().f_trace_opcodes = True
+    sys.settrace(_null_trace)
     try:
         for i, fn in enumerate(threads):
             h.new_thread(fn, (names[i] if names else f"T{i}"), False, True)
@@ -1367,6 +1422,9 @@ def run_program(threads, schedule=(), *, max_steps=20000, wall_timeout=20.0, opc
             raise HarnessError(f"controlled threads could not be terminated: {stuck}")
     finally:
         _H = None
+        sys.settrace(prev_trace)
+        if h.opcodes or h.all_opcodes:
+            sys._getframe().f_trace_opcodes = False
     res.events = h.events
     res.steps = h.step
     res.owners, res.labels, res.choices = h.owners, h.labels, h.choices
@@ -1380,6 +1438,10 @@ def run_program(threads, schedule=(), *, max_steps=20000, wall_timeout=20.0, opc
         if isinstance(e, HarnessError):
             raise e
     return res
+
+
+def _null_trace(frame, event, arg):
+    return None
 
 
 def _unwind(h, per_thread_timeout):
@@ -1443,23 +1505,23 @@ def k1_schedules(base: RunResult):
 
 
 def explore(factory, K=1, **kw):
-    """Exhaustive exploration of all schedules with at most K entries (depth-first: every schedule
+    """Exhaustive exploration of all schedules with at most K entries, breadth-first (all schedules with k
+    entries before any with k+1, so the first failure found has the fewest preemptions; every schedule
     extends an explored one by an entry at a later step).  factory() -> (threads, ctx) is called for
     every run.  Yields (schedule, RunResult, ctx), starting with the unpreempted run."""
     c0 = _clock.us
-
-    def rec(sched, k):
-        _clock.us = c0
-        threads, ctx = factory()
-        res = run_program(threads, sched, **kw)
-        yield sched, res, ctx
-        if k >= K:
-            return
-        after = sched[-1][0] if sched else -1
-        for p in next_preemptions(res, after):
-            yield from rec(sched + [p], k + 1)
-
-    yield from rec([], 0)
+    level = [[]]
+    for k in range(K + 1):
+        nxt = []
+        for sched in level:
+            _clock.us = c0
+            threads, ctx = factory()
+            res = run_program(threads, sched, **kw)
+            yield sched, res, ctx
+            if k < K:
+                after = sched[-1][0] if sched else -1
+                nxt.extend(sched + [p] for p in next_preemptions(res, after))
+        level = nxt
 
 
 def raw_schedules(K=3, max_pos=96, max_tid=3):
